@@ -53,8 +53,20 @@ def gen_plan(rng, i: int, tier: str) -> dict:
     adv = rng.choice((0, 1, B - 1, B, 32 * B, 1024 * B, rng.randrange(0, 3 * 1024 * B)))
     if adv:
         ops.append({"op": "clock", "advance_ticks": adv})
+    first = len(ops) - 1 - (1 if adv else 0)
+    extra = None
+    if rng.random() < 0.45:
+        # a second protect on the SAME cache after the clock moved (refreshes the cached seed), for the same or another SID
+        sid2 = sid if rng.random() < 0.5 else offline.sid_shape(1 + (i + 7) % 15, i + 11)
+        if pmode == "offline":
+            ops.append({"op": "protect", "fl": rng.choice(("sync", "async")), "sid": sid2, "rk": 0, "net": "offline", "data": 9})
+        else:
+            ops.append({"op": "identity", "sids": [sid, sid2] if pmode != "online-pub" else []})
+            ops.append({"op": "protect", "fl": rng.choice(("sync", "async")), "sid": sid2, "rk": rng.choice((0, None)), "net": "online", "data": 9})
+        extra = len(ops) - 1
+        plan["second_sid"] = sid2
     relayout = rng.choice((False, False, False, True, "lib", "lib"))  # True = re-packed by the reference, "lib" = by DPAPINGBlob.pack(blob_in_envelope=False)
-    blob = {"from_op": len(ops) - 1 - (1 if adv else 0), "relayout": relayout}
+    blob = {"from_op": first, "relayout": relayout}
     if umode == "offline":
         if pmode != "offline":
             ops.append({"op": "load_key", "rk": 0})
@@ -63,22 +75,38 @@ def gen_plan(rng, i: int, tier: str) -> dict:
         ops.append({"op": "identity", "sids": [sid]})
         ops.append({"op": "unprotect", "fl": ufl, "net": "online", "blob": blob, "cache": "fresh"})
     else:  # warm shared cache: whatever the protect left behind, DC reachable as an authorised principal
-        ops.append({"op": "identity", "sids": [sid]})
+        ops.append({"op": "identity", "sids": [sid] + ([plan["second_sid"]] if extra is not None else [])})
         ops.append({"op": "unprotect", "fl": ufl, "net": "online", "blob": blob})
         ops.append({"op": "unprotect", "fl": rng.choice(("sync", "async")), "net": "online", "blob": blob})
+    if extra is not None:
+        # the second blob must round-trip too (same path as the first one)
+        last = dict(ops[-1])
+        if umode == "online":
+            ops.append({"op": "identity", "sids": [sid, plan["second_sid"]]})
+        ops.append(dict(last, blob={"from_op": extra, "relayout": rng.choice((False, "lib"))}))
     return plan
 
 
 def judge(plan, tr: P.Trace):
     probes: t.Dict[str, int] = {}
     rk = tr.root_keys[0]
-    prot = [ot for ot in tr.ops if ot.op["op"] == "protect"][0]
-    fl = prot.op["fl"]
+    prots = [ot for ot in tr.ops if ot.op["op"] == "protect"]
     if tr.dc.all_violations:
-        return common.violation("C01", "dc-rejected-request", fl, "", "", "", f"reference DC saw a non-conforming request: {tr.dc.all_violations[:2]}"), probes
+        return common.violation("C01", "dc-rejected-request", prots[0].op["fl"], "", "", "", f"reference DC saw a non-conforming request: {tr.dc.all_violations[:2]}"), probes
+    probes["two_protects_one_cache"] = int(len(prots) > 1)
+    for prot in prots:
+        v = _judge_protect(plan, tr, prot, rk, probes)
+        if v:
+            return v, probes
+    return None, probes
+
+
+def _judge_protect(plan, tr, prot, rk, probes):
+    fl = prot.op["fl"]
+    second = prot is not [ot for ot in tr.ops if ot.op["op"] == "protect"][0]
     if prot.outcome.kind != "ok":
         et, frame = drive.exc_sig(prot.outcome)
-        return common.violation("C01", "protect-failed", fl + "-" + plan["pmode"], et, frame, "", f"protect failed: {prot.outcome.exc!r}"), probes
+        return common.violation("C01", "protect-failed", fl + "-" + plan["pmode"], et, frame, "second-protect" if second else "", f"protect failed: {prot.outcome.exc!r}")
     blob = prot.outcome.value
     try:
         p = cms.parse_blob(blob)
@@ -93,15 +121,15 @@ def judge(plan, tr: P.Trace):
         cond = "l2-31" if pos and pos[2] == 31 else ""
         return common.violation("C01", "reference-cannot-open", fl + "-" + plan["pmode"], type(e).__name__, "", cond,
                                 f"the emitted blob (position {pos}) cannot be opened with the right root key by the reference: {e!r}; "
-                                f"envelope l2 omitted by DC: {[g.get('l2_omitted') for g in prot.getkeys]}"), probes
+                                f"envelope l2 omitted by DC: {[g.get('l2_omitted') for g in prot.getkeys]}")
     if ref_pt != prot.plaintext:
-        return common.violation("C01", "reference-plaintext-differs", fl, "", "", "", "reference decrypts the blob to different bytes"), probes
+        return common.violation("C01", "reference-plaintext-differs", fl, "", "", "", "reference decrypts the blob to different bytes")
     kid = p["key_identifier"]
     probes["mode_" + ("pub" if kid["flags"] & 1 else "nonce")] = 1
     probes["pos_l2_31"] = int(kid["l2"] == 31)
     probes["pt_big"] = int(len(prot.plaintext) >= 65535)
     for ot in tr.ops:
-        if ot.op["op"] != "unprotect":
+        if ot.op["op"] != "unprotect" or ot.op["blob"].get("from_op") != prot.idx:
             continue
         ufl = ot.op["fl"]
         probes["relayout"] = probes.get("relayout", 0) + int(bool(ot.op["blob"].get("relayout")))
@@ -109,19 +137,20 @@ def judge(plan, tr: P.Trace):
         if ot.outcome.kind != "ok":
             et, frame = drive.exc_sig(ot.outcome)
             return common.violation("C01", "unprotect-failed", ufl + "-" + plan["umode"], et, frame, "",
-                                    f"unprotect of the blob made by {plan['pmode']} protect failed: {ot.outcome.exc!r}"), probes
+                                    f"unprotect of the blob made by {plan['pmode']} protect failed: {ot.outcome.exc!r}")
         if ot.outcome.value != prot.plaintext:
             return common.violation("C01", "wrong-plaintext", ufl + "-" + plan["umode"], "", "", "",
-                                    f"round trip returned {ot.outcome.value[:16]!r}... instead of {prot.plaintext[:16]!r}..."), probes
+                                    f"round trip returned {ot.outcome.value[:16]!r}... instead of {prot.plaintext[:16]!r}...")
         probes["roundtrip_ok"] = probes.get("roundtrip_ok", 0) + 1
-    return None, probes
+    return None
 
 
 class C01(common.Check):
     id = "C01"
     level = "exploration"
     rule = ("case = plan [set simulated clock (interval-boundary biased); protect via offline root-key cache | online seed-key reply | online "
-            "public-key reply; advance clock (0, 1 tick, across L2/L1/L0 boundaries); optional re-layout of the stored blob (ciphertext "
+            "public-key reply; advance clock (0, 1 tick, across L2/L1/L0 boundaries); optionally a second protect on the same cache (same or "
+            "another SID) after the clock moved; optional re-layout of the stored blob (ciphertext "
             "trailing the envelope); unprotect via offline root key | online as authorised principal with a fresh cache | warm shared cache "
             "(twice)], both flavours on either side, PRNG TCP segmentation, DC envelope shape knob (L2 key omitted at L2=31), 4 hashes x "
             "{DH, P256, P384}, SIDs with 1..15 sub-authorities incl. 0 and 2^32-1, plaintext lengths 0..65536 (1 MiB in thorough). "
@@ -129,7 +158,7 @@ class C01(common.Check):
     components = {"client": "real (public API both flavours, KeyCache, RPC client, codecs, crypto)", "DC": "model (RefDC, independent derivation)",
                   "clock / entropy / network": "simulated", "security context": "stub (StubCtx)", "cross-check": "ref.cms decrypts every emitted blob"}
     assumptions = ["client and DC share the simulated clock in C01 plans (skew is C17's subject)"]
-    required_fired = ("mode_pub", "mode_nonce", "pos_l2_31", "relayout", "relayout_by_library", "roundtrip_ok", "pt_big")
+    required_fired = ("mode_pub", "mode_nonce", "pos_l2_31", "relayout", "relayout_by_library", "roundtrip_ok", "pt_big", "two_protects_one_cache")
 
     def cases(self, tier, seed):
         rng = prng.stream(seed, "C01")
